@@ -394,6 +394,198 @@ def r12_7(ctx):
         ctx.ok("R12.7", where(fi), "expand_sequence() returns sorted(...) on every path")
 
 
+# ----------------------------------------------------------------------------------------------------------------------
+# R12.8  which rows a statement touches
+_SQL_CALLS = ("execute", "query", "fetchone", "executemany")
+# (function, atom) pairs confirmed by hand: the only pattern matches on mailbox names
+_SQL_PATTERN_SITES = {
+    ("mbox._helper_rename_folder", "name like ?"): "subtree of a renamed mailbox; R17.1 pins the `old/%` argument and the exact prefix filter behind it",
+    ("mbox.Mailbox._list_simple", "name regexp ?"): "LIST/LSUB pattern, compiled from the client's pattern by _mbox_pattern_to_re (R17.5)",
+}
+_SQL_OR_SITES = {"mbox._helper_rename_folder"}
+
+
+def _sql_texts(fi, c):
+    """All texts the first argument of a db call can have (lower-case, blanks collapsed; opaque f-string holes are `{}`)."""
+    def texts(e, depth=0):
+        if isinstance(e, ast.Constant) and isinstance(e.value, str):
+            return [e.value]
+        if isinstance(e, ast.IfExp):
+            return [t for arm in (e.body, e.orelse) for t in texts(arm, depth + 1)]
+        if isinstance(e, ast.JoinedStr):
+            outs = [""]
+            for v in e.values:
+                if isinstance(v, ast.Constant):
+                    alts = [str(v.value)]
+                else:
+                    alts = texts(v.value, depth + 1) if isinstance(v, ast.FormattedValue) else None
+                    alts = alts or ["{}"]
+                outs = [o + a for o in outs for a in alts]
+            return outs
+        if isinstance(e, ast.BinOp) and isinstance(e.op, ast.Add):
+            l, r = texts(e.left, depth + 1), texts(e.right, depth + 1)
+            if l and r:
+                return [a + b for a in l for b in r]
+            return None
+        if isinstance(e, ast.Name) and depth < 4:
+            defs = [s for s in body_walk(fi.node) if isinstance(s, ast.Assign) and len(s.targets) == 1 and isinstance(s.targets[0], ast.Name) and s.targets[0].id == e.id]
+            if len(defs) == 1:
+                return texts(defs[0].value, depth + 1)
+        return None
+
+    got = texts(c.args[0])
+    if got is None:
+        return None
+    return [" ".join(t.lower().split()) for t in got]
+
+
+def _sql_params(fi, c):
+    if len(c.args) < 2:
+        return []
+    a = c.args[1]
+    if isinstance(a, ast.Name):
+        defs = [s for s in body_walk(fi.node) if isinstance(s, ast.Assign) and len(s.targets) == 1 and isinstance(s.targets[0], ast.Name) and s.targets[0].id == a.id]
+        if len(defs) == 1:
+            a = defs[0].value
+    if isinstance(a, (ast.Tuple, ast.List)):
+        return list(a.elts)
+    return None
+
+
+def _id_like(e) -> bool:
+    if isinstance(e, ast.Starred):
+        return False
+    if isinstance(e, ast.Attribute):
+        return e.attr == "id" or e.attr.endswith("_id")
+    if isinstance(e, ast.Name):
+        return e.id == "id" or e.id.endswith("_id")
+    return False
+
+
+def _where_clauses(sql):
+    """[(table, clause, offset of the clause in sql)] for every WHERE of the statement, innermost sub-select first; a
+    sub-select is replaced by `(sub)` in the clause that contains it."""
+    out = []
+    work = sql
+    while True:
+        m = re.search(r"\(\s*select [^()]*\)", work)
+        if not m:
+            break
+        inner = m.group(0)
+        out.extend(_where_flat(inner.strip("() "), m.start()))
+        sel = re.match(r"\(\s*select (\w+) from (\w+)", inner)
+        tag = f"(sub:{sel.group(1)}:{sel.group(2)})" if sel else "(sub)"
+        work = work[: m.start()] + tag.ljust(len(inner), "\x00") + work[m.end():]
+    out.extend(_where_flat(work.replace("\x00", ""), 0))
+    return out
+
+
+def _where_flat(sql, off):
+    out = []
+    for m in re.finditer(r"\bwhere\b", sql):
+        head = sql[: m.start()]
+        tm = None
+        for tm in re.finditer(r"\b(?:from|update|into)\s+(\w+)", head):
+            pass
+        table = tm.group(1) if tm else "?"
+        tail = sql[m.end():]
+        end = re.search(r"\b(order by|limit|group by|on conflict)\b", tail)
+        clause = tail[: end.start()] if end else tail
+        out.append((table, clause.strip(), off + m.end()))
+    return out
+
+
+def r12_8(ctx):
+    """Every statement on the tables that hold a mailbox's identity (mailboxes, sequences, user_server) picks its rows by an
+    exact key: `id = ?` / `name = ?` on mailboxes, `mailbox_id = ?` (and sequence `name`) on sequences - bound to a value of
+    the matching kind - with no pattern operator (LIKE / REGEXP / GLOB), no COLLATE and no OR outside the two sites
+    confirmed by hand.  A pattern or a case-folding comparison makes one mailbox's statement touch another mailbox's row
+    (`archive` vs `Archive/2023`, `lists` vs `Lists`): rows vanish or are shared, and UIDVALIDITY / UIDs / flags /
+    subscription of an untouched mailbox change across a restart; the row's own `id` of `sequences` compared with a mailbox
+    id deletes nothing (or somebody else's row)."""
+    p = ctx.p
+    n_stmt = n_where = 0
+    for fi in p.functions.values():
+        if fi.module in ("db",) and fi.name not in ("get_rid_of_root_folder",):
+            continue
+        for c in calls_in(fi.node):
+            if not (isinstance(c.func, ast.Attribute) and c.func.attr in _SQL_CALLS and c.args):
+                continue
+            recv = norm(c.func.value)
+            if "db" not in recv and "conn" not in recv and "cursor" not in recv:
+                continue
+            texts = _sql_texts(fi, c)
+            if texts is None:
+                ctx.bad("R12.8", fi.module, fi.qual, norm(c, 90), "the text of this SQL statement is not a constant (or a conditional between constants): which rows it touches cannot be read off the source", c.lineno)
+                continue
+            params = _sql_params(fi, c)
+            for sql in texts:
+                if not re.search(r"\b(mailboxes|sequences|user_server)\b", sql):
+                    continue
+                n_stmt += 1
+                ctx.analysed(fi)
+                key = f"{fi.module}.{fi.qual}"
+                if re.search(r"\bcollate\b|\bglob\b", sql):
+                    ctx.bad("R12.8", fi.module, fi.qual, sql[:110], "a COLLATE / GLOB comparison selects the rows of this statement: names that differ only in case (or match the pattern) share or lose their row", c.lineno)
+                    continue
+                ok = True
+                for table, clause, off in _where_clauses(sql):
+                    n_where += 1
+                    if re.search(r"\bor\b", clause) and key not in _SQL_OR_SITES:
+                        ctx.bad("R12.8", fi.module, fi.qual, f"where {clause}"[:110], "an OR in the row selection outside the rename helper: the statement reaches rows beyond the one keyed", c.lineno)
+                        ok = False
+                        continue
+                    for am in re.finditer(r"(?:^|\band\b|\bor\b)\s*((?:(?!\band\b|\bor\b).)+)", clause):
+                        atom = am.group(1).strip()
+                        if not atom or atom == "{}":
+                            continue
+                        atom_off = off + sql[off:].find(atom) if atom in sql[off:] else None
+                        m = re.fullmatch(r"(\w+)\s*=\s*\?", atom)
+                        if m:
+                            col = m.group(1)
+                            if table == "sequences" and col == "id":
+                                ctx.bad("R12.8", fi.module, fi.qual, f"{table}: where {atom}", "rows of `sequences` are selected by their own row id: nothing in the server holds such an id - bound to a mailbox id it matches no row (or another mailbox's)", c.lineno)
+                                ok = False
+                                continue
+                            if table == "mailboxes" and col == "mailbox_id":
+                                ctx.bad("R12.8", fi.module, fi.qual, f"{table}: where {atom}", "`mailboxes` has no mailbox_id column", c.lineno)
+                                ok = False
+                                continue
+                            # kind of the bound value
+                            if params is not None and atom_off is not None and "{}" not in sql[:atom_off]:
+                                idx = sql[:atom_off].count("?")
+                                if idx < len(params) and not any(isinstance(x, ast.Starred) for x in params[:idx]):
+                                    pe = params[idx]
+                                    want_id = col in ("id", "mailbox_id")
+                                    is_name_col = col == "name"
+                                    if want_id and not _id_like(pe):
+                                        ctx.bad("R12.8", fi.module, fi.qual, f"{table}: where {atom} <- {norm(pe, 40)}", "a key column is bound to something that is not a row id", c.lineno)
+                                        ok = False
+                                    elif is_name_col and _id_like(pe):
+                                        ctx.bad("R12.8", fi.module, fi.qual, f"{table}: where {atom} <- {norm(pe, 40)}", "the name column is bound to a row id", c.lineno)
+                                        ok = False
+                            continue
+                        if re.fullmatch(r"\w+\s*=\s*('[^']*'|\d+)", atom):
+                            continue  # comparison with a constant
+                        if re.fullmatch(r"attributes not like '%+ignored%+'", atom):
+                            continue
+                        if re.fullmatch(r"name in \((\{\}|[?, ]+)\)", atom) and table == "sequences":
+                            continue
+                        sm = re.fullmatch(r"mailbox_id in \(sub:(\w+):(\w+)\)", atom)
+                        if sm and table == "sequences" and sm.group(1) == "id" and sm.group(2) == "mailboxes":
+                            continue
+                        bare = re.sub(r"\s*\{\}\s*", " ", atom).strip()
+                        if (key, bare) in _SQL_PATTERN_SITES or (key.rsplit(".", 1)[0], bare) in _SQL_PATTERN_SITES:
+                            continue
+                        ctx.bad("R12.8", fi.module, fi.qual, f"{table}: where {atom}"[:110], "row selection by something other than an exact key (`id = ?`, `name = ?`, `mailbox_id = ?`): a pattern / range / case-folding comparison reaches the rows of other mailboxes", c.lineno)
+                        ok = False
+                if ok:
+                    ctx.ok("R12.8", where(fi), f"{sql[:70]}: rows picked by exact key", nontrivial=False)
+    ctx.floor("R12.8", n_stmt, 20, "SQL statements on mailboxes / sequences / user_server")
+    ctx.floor("R12.8", n_where, 14, "WHERE clauses examined")
+
+
+
 def run(ctx):
     ctx.do(r12_5)
     ctx.do(r12_7)
@@ -405,6 +597,9 @@ def run(ctx):
     ctx.do(r12_3, written, read)
     ctx.do(r12_4)
     ctx.do(r12_6)
+    ctx.do(r12_8)
+    from . import c11 as _c11
+    ctx.do(_c11.r11_9)  # an upgraded row comes back paired with the messages it described
     from . import c13
     ctx.do(c13.r13_5)
     from . import c03 as _c03b
